@@ -299,7 +299,12 @@ def check_one(recipe, dname: str, start_asst: Tuple[int, ...], best: float) -> L
         warnings.simplefilter("ignore")
         info = None
         try:
+            grad = dname.endswith("+grad")        # the same log-weights, as tensors that require gradients
+            dname = dname.split("+")[0]
             fgg, info = G.build_fgg_info(recipe, "Viterbi", dname)
+            if grad:
+                for fac in fgg.factors.values():
+                    fac.weights = fac.weights.to_dense().clone().requires_grad_(True)
             opts = {} if dname == "float32" else {"semiring": G.make_semiring("Viterbi", dname)}
             deriv = fggs.viterbi(fgg, tuple(start_asst), **opts)
         except RecursionError as e:
@@ -395,8 +400,8 @@ def _worker(chunk: List[dict]):
             stats["grammars_no_finite_start"] += 1
             continue
         stats["grammars_in_scope"] += 1
-        for d in ("float32", "float64"):
-            for a, best in sc:
+        for d in ("float32", "float64", "float64+grad"):
+            for a, best in (sc if d != "float64+grad" else sc[:1]):
                 n += 1
                 fails.extend(check_one(recipe, d, a, best))
     return fails, n, stats
